@@ -357,7 +357,8 @@ def vartime_harnesses(rep, cfg, modpath, tier, backend=None):
     T = []
     win_q = [0, 1, 2, 3, 252, 253, 254, 255]
     windows = [("NAF digits arbitrary in positions 0-3 and 252-255, zero elsewhere", win_q)] if tier == "quick" else \
-              [("NAF digits arbitrary in positions 0-3 and 252-255, zero elsewhere", win_q), ("NAF digits arbitrary in positions 100-131", list(range(100, 132))), ("all 256 NAF digit positions arbitrary", None)]
+              [("NAF digits arbitrary in positions 0-3 and 252-255, zero elsewhere", win_q), ("NAF digits arbitrary in positions 100-131", list(range(100, 132))),
+               ("NAF digits arbitrary in positions 0-47", list(range(0, 48))), ("NAF digits arbitrary in positions 208-255", list(range(208, 256)))]
     pre = "vector " if backend in ("avx2", "avx512") else "serial "
     for wname, win in windows:
         def b_vdb(it):
@@ -492,9 +493,14 @@ def run(tier, seed):
     tasks += pippenger_harnesses(rep, tier)
     tasks += vector_harnesses(rep, "simd", build.ir("simd", "O0"), tier, "avx2")
     tasks += vartime_harnesses(rep, "simd", build.ir("simd", "O0"), tier, backend="avx2")
-    if tier != "quick":
-        try: tasks += vector_harnesses(rep, "avx512", build.ir("avx512", "O0"), tier, "avx512")
-        except build.BuildError as e: rep.add(harness="avx512/build", config="avx512", function="build", status="inconclusive", why=str(e)[-400:], goals=[], wall_s=0)
+    # the AVX-512 IFMA copies (unstable_avx512 build, nightly toolchain)
+    try:
+        a5 = build.ir("avx512", "O0")
+        tasks += vector_harnesses(rep, "avx512", a5, tier, "avx512")
+        tasks += vartime_harnesses(rep, "avx512", a5, tier, backend="avx512")
+        tasks.append(lambda: pippenger_harness(rep, "avx512", a5, "vector (IFMA) Pippenger n=2 (w=6)", "vp_g_pippenger_dispatch", 2, 2, "2 points, all radix-64 digit vectors (all scalars)", backend="avx512"))
+        tasks.append(lambda: none_harness(rep, "avx512", a5, "vector (IFMA) Pippenger: None point => None", "vp_g_pippenger_dispatch", 3, backend="avx512"))
+    except build.BuildError as e: rep.add(harness="avx512/build", config="avx512", function="build", status="inconclusive", why=str(e)[-400:], goals=[], wall_s=0)
     tasks.append(lambda: kani_part(rep, tier))
     run_tasks(tasks, rep)
     return rep
